@@ -11,6 +11,7 @@ func init() {
 		Explain: "Gate table (T6): each score threshold of C09 is one normalised comparison between a score value (peerScore.Score or the heartbeat's memoising closure) and a named threshold field, with a named effect, decided by edge-cut dominance on go/cfg — including the boundary operator (< vs <=). Rows: G1 AcceptFrom (direct => AcceptAll; score<graylist => AcceptNone; else the gater), G2/G3 IHAVE/IWANT ignored below gossipThreshold before any effect, G4 emitGossip recipients (>= gossipThreshold, not excluded, not direct, mesh-capable), G5/G6 flood-publish and floodsub recipients (direct or >= publishThreshold), G7 fanout selection filters (>= publishThreshold, not direct), G8 fanout drop (< publishThreshold or left topic), G9 GRAFT from negative score refused with PRUNE, doPX=false on every refusing path that does not know the score to be non-negative, backoff added, G10 heartbeat prunes negative scores with noPX, G11/G12 PX only at/above acceptPXThreshold and only with a valid signed record matching the peer ID, G13 gater result set within {AcceptAll,AcceptControl}, G14 handleIncomingRPC arms (AcceptNone returns before everything; AcceptControl reaches HandleRPC on every path and never pushMsg), G15 threshold validation orderings. (audit round) G9: score freshness in handleGraft; G12: the record's signing key belongs to the advertised peer ID. NOT decided: that Score is computed correctly (C10), timing of 'next heartbeat'.",
 		Assume:  []string{"peerScore.Score returns the peer's score (C10)", "single-definition locals are not modified between definition and test (checked by reaching definitions)"},
 		Mutants: []Mutant{
+			{Name: "heartbeat-memo-kept-after-prune", File: "gossipsub.go", Old: "\t\t\t// leaving a mesh changes the peer's score: the other topics are judged with the new one\n\t\t\tdelete(scores, p)\n", New: "", Expect: "G10"},
 			{Name: "graylist-le", File: "gossipsub.go", Old: "if gs.score.Score(p) < gs.graylistThreshold {", New: "if gs.score.Score(p) <= gs.graylistThreshold {", Expect: "G1"},
 			{Name: "acceptfrom-direct-after-graylist", File: "gossipsub.go", Old: "\t_, direct := gs.direct[p]\n\tif direct {\n\t\treturn AcceptAll\n\t}\n\n\tif gs.score.Score(p) < gs.graylistThreshold {\n\t\treturn AcceptNone\n\t}", New: "\tif gs.score.Score(p) < gs.graylistThreshold {\n\t\treturn AcceptNone\n\t}\n\t_, direct := gs.direct[p]\n\tif direct {\n\t\treturn AcceptAll\n\t}", Expect: "G1"},
 			{Name: "ihave-threshold-wrong-field", File: "gossipsub.go", Old: "\tif score < gs.gossipThreshold {\n\t\tgs.logger.Debug(\"IHAVE: ignoring peer with score below threshold\"", New: "\tif score < gs.graylistThreshold {\n\t\tgs.logger.Debug(\"IHAVE: ignoring peer with score below threshold\"", Expect: "G2"},
@@ -335,6 +336,8 @@ func runC09(c *RuleCtx) {
 		}
 	}
 	checkScoreFreshness(c, "G9", fnHandleGraft)
+	checkScoreFreshness(c, "G11", "(*GossipSubRouter).handlePrune")
+	checkMemoInvalidated(c, "G10")
 	// G9 also covers Join: fanout members with negative score are not promoted (shared with C07 R07.1)
 	checkJoinPromotion(c, "G9", true, false, false)
 	// ---------- G10 heartbeat negative-score prune
